@@ -16,6 +16,7 @@
       counter-example (known finding `c04.fixedAmountFinerThanPresented`).
 -/
 import GoblVerif.Spec.C04
+import GoblVerif.Generated.CalcFacts
 import GoblVerif.Proofs.CalcBasics
 import GoblVerif.Proofs.CalcFix
 
@@ -111,5 +112,41 @@ example :
                       breakdown := [], taxes := [] }
     (present "EUR" 2 [] .precise l).toOption.bind (fun l1 => (present "EUR" 2 [] .precise (reread l1)).toOption)
       = (present "EUR" 2 [] .precise l).toOption := by decide
+
+/-! ## pinned source shapes (regenerated facts; tools/pin_calc_expect.py) -/
+
+namespace ExpectCalc
+open GoblVerif.Generated.Calc
+
+theorem calls_Line_round_as_modelled : calls_Line_round =
+    ["Exp", "RescaleDown", "Exp", "RescaleDown", "round", "round", "round", "round"] := by decide
+theorem conds_Line_round_as_modelled : conds_Line_round =
+    ["l.Item == nil || l.Item.Price == nil", "l.Sum != nil", "l.Total != nil"] := by decide
+theorem calls_SubLine_round_as_modelled : calls_SubLine_round =
+    ["RescaleDown", "RescaleDown"] := by decide
+theorem conds_SubLine_round_as_modelled : conds_SubLine_round =
+    ["sl.Sum != nil", "sl.Total != nil"] := by decide
+theorem calls_LineDiscount_round_as_modelled : calls_LineDiscount_round =
+    ["RescaleDown"] := by decide
+theorem conds_LineDiscount_round_as_modelled : conds_LineDiscount_round =
+    [] := by decide
+theorem calls_LineCharge_round_as_modelled : calls_LineCharge_round =
+    ["RescaleDown"] := by decide
+theorem conds_LineCharge_round_as_modelled : conds_LineCharge_round =
+    [] := by decide
+theorem calls_Discount_round_as_modelled : calls_Discount_round =
+    ["Def", "Exp", "Exp", "RescaleDown"] := by decide
+theorem conds_Discount_round_as_modelled : conds_Discount_round =
+    ["m.Base != nil && m.Base.Exp() > e"] := by decide
+theorem calls_Charge_round_as_modelled : calls_Charge_round =
+    ["Def", "Exp", "Exp", "RescaleDown"] := by decide
+theorem conds_Charge_round_as_modelled : conds_Charge_round =
+    ["m.Base != nil && m.Base.Exp() > e"] := by decide
+theorem calls_Totals_reset_as_modelled : calls_Totals_reset =
+    [] := by decide
+theorem conds_Totals_reset_as_modelled : conds_Totals_reset =
+    [] := by decide
+
+end ExpectCalc
 
 end GoblVerif.Props.C04
